@@ -139,8 +139,16 @@ func (e *gnetServer) OnOpen(c gnet.Conn) (out []byte, action gnet.Action) {
 	cc := &connCtx{
 		remoteAddr: netAddr2NetipAddr(c.RemoteAddr()),
 		localAddr:  netAddr2NetipAddr(c.LocalAddr()),
-		idleTimer:  time.AfterFunc(e.idleTimeout, func() { c.Close() }),
 	}
+	cc.idleTimer = time.AfterFunc(e.idleTimeout, func() {
+		// A connection on which queries are still being handled is not
+		// idle. The client is waiting for the responses.
+		if cc.concurrentRequests.Load() > 0 {
+			cc.idleTimer.Reset(e.idleTimeout)
+			return
+		}
+		c.Close()
+	})
 	c.SetContext(cc)
 
 	if err := e.r.limiterAllowN(cc.remoteAddr.Addr(), costTCPConn); err != nil {
